@@ -313,7 +313,9 @@ func checkDetachPartition(c *Ctx) {
 		c.Unresolved("R04c", "detachReferences: type switch over the changes")
 		return
 	}
-	// kinds appended to a local slice variable
+	// kinds appended to the early / late lists inside a case clause; values coming out of package-local
+	// helpers are resolved through the helpers' return statements (kindResolver)
+	kr := &kindResolver{c: c}
 	kindsOf := func(body []ast.Stmt) map[types.Object]map[string]bool {
 		out := map[types.Object]map[string]bool{}
 		for _, st := range body {
@@ -332,43 +334,45 @@ func checkDetachPartition(c *Ctx) {
 				}
 				lo := info.ObjectOf(l)
 				for _, a := range call.Args[1:] {
-					k := ""
-					switch x := a.(type) {
-					case *ast.UnaryExpr:
-						if n := namedOf(info.TypeOf(x.X)); n != nil {
-							k = n.Obj().Name()
+					for k := range kr.kinds(fi, a, 0) {
+						if out[lo] == nil {
+							out[lo] = map[string]bool{}
 						}
-					case *ast.Ident:
-						if n := namedOf(info.TypeOf(x)); n != nil {
-							k = n.Obj().Name()
-						}
-					}
-					if k == "" {
-						continue
-					}
-					if out[lo] == nil {
-						out[lo] = map[string]bool{}
-					}
-					out[lo][k] = true
-					// a ModifyTable carrying a slice: record what the slice holds
-					if un, ok := a.(*ast.UnaryExpr); ok {
-						if cl, ok := un.X.(*ast.CompositeLit); ok && k == "ModifyTable" {
-							for _, e := range cl.Elts {
-								if kv, ok := e.(*ast.KeyValueExpr); ok && kv.Key.(*ast.Ident).Name == "Changes" {
-									if v, ok := kv.Value.(*ast.Ident); ok {
-										for kk := range out[info.ObjectOf(v)] {
-											out[lo]["ModifyTable["+kk+"]"] = true
-										}
-									}
-								}
-							}
-						}
+						out[lo][k] = true
 					}
 				}
 				return true
 			})
 		}
 		return out
+	}
+	// the function (and statement list) that holds the loop over the table's foreign keys: the clause itself or a helper it calls
+	fkLoopCtx := func(cc *ast.CaseClause) (*FuncInfo, []ast.Stmt) {
+		has := func(inf *types.Info, body []ast.Stmt) bool {
+			hit := false
+			for _, st := range body {
+				ast.Inspect(st, func(m ast.Node) bool {
+					if rs, ok := m.(*ast.RangeStmt); ok && isField(inf, rs.X, pSchema, "Table", "ForeignKeys") {
+						hit = true
+					}
+					return true
+				})
+			}
+			return hit
+		}
+		if has(info, cc.Body) {
+			return fi, cc.Body
+		}
+		for _, st := range cc.Body {
+			for _, call := range callsIn(st, true) {
+				if fn := calleeOf(info, call); fn != nil && fn.Pkg() != nil && fn.Pkg().Path() == pSqlx {
+					if cf := c.FuncInfoOf(fn); cf != nil && cf.Decl.Body != nil && has(cf.Info(), cf.Decl.Body.List) {
+						return cf, cf.Decl.Body.List
+					}
+				}
+			}
+		}
+		return fi, cc.Body
 	}
 	for _, cl := range sw.Body.List {
 		cc := cl.(*ast.CaseClause)
@@ -385,17 +389,19 @@ func checkDetachPartition(c *Ctx) {
 		case "AddTable":
 			c.Check("R04c", "detachReferences|AddTable→early, its foreign keys→late", cc.Pos(), e["AddTable"] && !l["AddTable"] && l["ModifyTable[AddForeignKey]"] && !e["ModifyTable[AddForeignKey]"], "table creations must go to the early list and the detached AddForeignKey changes to the late list (early=%v late=%v)", keys(e), keys(l))
 			// t.ForeignKeys = <self list> (not the original)
+			lf, lbody := fkLoopCtx(cc)
+			linfo := lf.Info()
 			okCopy := false
-			for _, st := range cc.Body {
+			for _, st := range lbody {
 				ast.Inspect(st, func(m ast.Node) bool {
 					as, ok := m.(*ast.AssignStmt)
 					if !ok || len(as.Lhs) != 1 {
 						return true
 					}
-					if isField(info, as.Lhs[0], pSchema, "Table", "ForeignKeys") {
+					if isField(linfo, as.Lhs[0], pSchema, "Table", "ForeignKeys") {
 						if id, ok := as.Rhs[0].(*ast.Ident); ok {
 							// the variable holding only self references: appended under fk.RefTable == change.T
-							okCopy = info.ObjectOf(id) != nil && !isNilIdent(info, id) && onlySelfRefsAppended(info, cc, info.ObjectOf(id))
+							okCopy = linfo.ObjectOf(id) != nil && !isNilIdent(linfo, id) && onlySelfRefsAppended(linfo, lbody, linfo.ObjectOf(id))
 						}
 					}
 					return true
@@ -403,13 +409,15 @@ func checkDetachPartition(c *Ctx) {
 			}
 			c.Check("R04c", "detachReferences|AddTable copy keeps only self references", cc.Pos(), okCopy, "the planned copy of a detached table must have its ForeignKeys replaced by the self-referencing ones (an FK kept inline points at a table that may not exist yet)")
 			// each FK goes to exactly one of the two lists
-			checkFKSplit(c, info, cc)
+			checkFKSplit(c, linfo, lbody, cc.Pos())
 		case "DropTable":
 			c.Check("R04c", "detachReferences|DropTable→late, its foreign keys→early", cc.Pos(), l["DropTable"] && !e["DropTable"] && e["ModifyTable[DropForeignKey]"] && !l["ModifyTable[DropForeignKey]"], "table drops must go to the late list and the detached DropForeignKey changes to the early list (early=%v late=%v)", keys(e), keys(l))
+			lf, lbody := fkLoopCtx(cc)
+			linfo := lf.Info()
 			okNil := false
-			for _, st := range cc.Body {
+			for _, st := range lbody {
 				ast.Inspect(st, func(m ast.Node) bool {
-					if as, ok := m.(*ast.AssignStmt); ok && len(as.Lhs) == 1 && isField(info, as.Lhs[0], pSchema, "Table", "ForeignKeys") && isNilIdent(info, as.Rhs[0]) {
+					if as, ok := m.(*ast.AssignStmt); ok && len(as.Lhs) == 1 && isField(linfo, as.Lhs[0], pSchema, "Table", "ForeignKeys") && isNilIdent(linfo, as.Rhs[0]) {
 						okNil = true
 					}
 					return true
@@ -422,11 +430,150 @@ func checkDetachPartition(c *Ctx) {
 	}
 }
 
+// kindResolver computes which schema change kinds an expression can denote, looking through
+// local variables, `append` accumulation and the results of package-local helper functions.
+// A ModifyTable whose Changes hold kind K is reported as "ModifyTable[K]" (and "ModifyTable").
+type kindResolver struct {
+	c    *Ctx
+	busy map[string]bool
+}
+
+func (kr *kindResolver) kinds(fi *FuncInfo, e ast.Expr, depth int) map[string]bool {
+	out := map[string]bool{}
+	if depth > 4 || e == nil {
+		return out
+	}
+	info := fi.Info()
+	e = ast.Unparen(e)
+	add := func(m map[string]bool) {
+		for k := range m {
+			out[k] = true
+		}
+	}
+	switch x := e.(type) {
+	case *ast.UnaryExpr:
+		if x.Op == token.AND {
+			add(kr.kinds(fi, x.X, depth))
+		}
+	case *ast.CompositeLit:
+		n := namedOf(info.TypeOf(x))
+		if n == nil || n.Obj().Pkg() == nil || n.Obj().Pkg().Path() != pSchema {
+			return out
+		}
+		out[n.Obj().Name()] = true
+		if n.Obj().Name() == "ModifyTable" {
+			for _, el := range x.Elts {
+				if kv, ok := el.(*ast.KeyValueExpr); ok {
+					if k, ok := kv.Key.(*ast.Ident); ok && k.Name == "Changes" {
+						for kk := range kr.elemKinds(fi, kv.Value, depth+1) {
+							out["ModifyTable["+kk+"]"] = true
+						}
+					}
+				}
+			}
+		}
+	case *ast.Ident:
+		obj := info.ObjectOf(x)
+		if obj == nil {
+			return out
+		}
+		// every definition of the variable in this function
+		found := false
+		ast.Inspect(fi.Decl.Body, func(m ast.Node) bool {
+			as, ok := m.(*ast.AssignStmt)
+			if !ok {
+				return true
+			}
+			for i, l := range as.Lhs {
+				id, ok := l.(*ast.Ident)
+				if !ok || info.ObjectOf(id) != obj {
+					continue
+				}
+				found = true
+				if len(as.Rhs) == len(as.Lhs) {
+					if r := ast.Unparen(as.Rhs[i]); r != e {
+						add(kr.kinds(fi, r, depth+1))
+					}
+				} else if call, ok := ast.Unparen(as.Rhs[0]).(*ast.CallExpr); ok {
+					add(kr.resultKinds(fi, call, i, depth+1))
+				}
+			}
+			return true
+		})
+		// a type-switch binding, range variable or parameter: its static type is the kind
+		if !found || len(out) == 0 {
+			if n := namedOf(info.TypeOf(x)); n != nil && n.Obj().Pkg() != nil && n.Obj().Pkg().Path() == pSchema {
+				if _, isIface := n.Underlying().(*types.Interface); !isIface {
+					out[n.Obj().Name()] = true
+				}
+			}
+		}
+	case *ast.CallExpr:
+		add(kr.resultKinds(fi, x, 0, depth+1))
+	}
+	return out
+}
+
+// resultKinds: kinds of the i-th result of a call to a package-local function.
+func (kr *kindResolver) resultKinds(fi *FuncInfo, call *ast.CallExpr, i, depth int) map[string]bool {
+	out := map[string]bool{}
+	fn := calleeOf(fi.Info(), call)
+	if fn == nil || fn.Pkg() == nil || !strings.HasPrefix(fn.Pkg().Path(), modRoot) {
+		return out
+	}
+	cf := kr.c.FuncInfoOf(fn)
+	if cf == nil || cf.Decl.Body == nil || depth > 4 {
+		return out
+	}
+	ast.Inspect(cf.Decl.Body, func(m ast.Node) bool {
+		if _, isLit := m.(*ast.FuncLit); isLit {
+			return false
+		}
+		if r, ok := m.(*ast.ReturnStmt); ok && i < len(r.Results) {
+			for k := range kr.kinds(cf, r.Results[i], depth+1) {
+				out[k] = true
+			}
+		}
+		return true
+	})
+	return out
+}
+
+// elemKinds: kinds of the elements a slice-valued expression can hold (append accumulation).
+func (kr *kindResolver) elemKinds(fi *FuncInfo, e ast.Expr, depth int) map[string]bool {
+	out := map[string]bool{}
+	info := fi.Info()
+	id, ok := ast.Unparen(e).(*ast.Ident)
+	if !ok || depth > 4 {
+		return out
+	}
+	obj := info.ObjectOf(id)
+	ast.Inspect(fi.Decl.Body, func(m ast.Node) bool {
+		as, ok := m.(*ast.AssignStmt)
+		if !ok || len(as.Rhs) != 1 || len(as.Lhs) != 1 {
+			return true
+		}
+		l, ok := as.Lhs[0].(*ast.Ident)
+		if !ok || info.ObjectOf(l) != obj {
+			return true
+		}
+		if call, ok := as.Rhs[0].(*ast.CallExpr); ok && builtinName(info, call) == "append" {
+			for _, a := range call.Args[1:] {
+				for k := range kr.kinds(fi, a, depth+1) {
+					out[k] = true
+				}
+			}
+		}
+		return true
+	})
+	return out
+}
+
 // checkFKSplit: in the AddTable case the loop over the table's foreign keys
 // appends each key to exactly one list (if/else).
-func checkFKSplit(c *Ctx, info *types.Info, cc *ast.CaseClause) {
+func checkFKSplit(c *Ctx, info *types.Info, body []ast.Stmt, pos token.Pos) {
 	ok := false
-	for _, st := range cc.Body {
+	for _, st := range body {
 		rs, isRange := st.(*ast.RangeStmt)
 		if !isRange || !isField(info, rs.X, pSchema, "Table", "ForeignKeys") {
 			continue
@@ -442,7 +589,7 @@ func checkFKSplit(c *Ctx, info *types.Info, cc *ast.CaseClause) {
 			}
 		}
 	}
-	c.Check("R04c", "detachReferences|every foreign key goes to exactly one list", cc.Pos(), ok, "the loop over the table's foreign keys must put each key into exactly one of {kept inline, deferred}")
+	c.Check("R04c", "detachReferences|every foreign key goes to exactly one list", pos, ok, "the loop over the table's foreign keys must put each key into exactly one of {kept inline, deferred}")
 }
 
 func countAppends(info *types.Info, b *ast.BlockStmt) int {
@@ -754,7 +901,7 @@ func checkPointerIdentity(c *Ctx) {
 // onlySelfRefsAppended reports whether every `v = append(v, …)` in the case clause is nested in an
 // if-branch whose edge implies fk.RefTable == <the table> (a foreign key kept inline in CREATE TABLE
 // may only point at the table being created).
-func onlySelfRefsAppended(info *types.Info, cc *ast.CaseClause, v types.Object) bool {
+func onlySelfRefsAppended(info *types.Info, body []ast.Stmt, v types.Object) bool {
 	isSelfFact := func(f fact) bool {
 		be, ok := ast.Unparen(f.expr).(*ast.BinaryExpr)
 		if !ok {
@@ -774,7 +921,7 @@ func onlySelfRefsAppended(info *types.Info, cc *ast.CaseClause, v types.Object) 
 		return be.Op == token.EQL && f.val || be.Op == token.NEQ && !f.val
 	}
 	n, ok := 0, true
-	for _, st := range cc.Body {
+	for _, st := range body {
 		pm := parentMap(st)
 		ast.Inspect(st, func(m ast.Node) bool {
 			as, isAs := m.(*ast.AssignStmt)
